@@ -172,6 +172,10 @@ def typed_calls(rng: random.Random, full: bool) -> Iterator[Tuple[str, str, List
         yield 'pydantic-validator-not-coercing', 'pd_asis', p
     for p in ([], ['x'], {'a': 1, 'b': 'x'}, [1, 2, 3], {'b': 1}, [None], [[1]]):
         yield 'unbound', 'pd_asis', p
+    for p in ([1], {'a': 0, 'b': {'t': 'x'}}, [2, {'t': 'T'}], {'a': 3, 'b': {}}):
+        yield 'schema-with-$id-and-$ref', 'js_ref', p
+    for p in ([-1], {'a': 'x'}, [1, {'t': 5}], [1, 'b'], [], {'b': {'t': 'x'}}):
+        yield 'unbound', 'js_ref', p
     for p in ([], [7], {'a': 8}):
         yield 'registered-name-in-the-rpc-namespace', 'rpc.ping', p
     yield 'unbound', 'rpc.ping', {'zz': 1}
